@@ -66,7 +66,11 @@ def _render(case, rnd) -> str:
     # unquoted identifiers are re-spelled per occurrence too (quoted style keeps the stored upper-case names)
     idc = (lambda x: x if x.startswith('"') or x.startswith("(") else _recase(rnd, x)) if case["recase"] else (lambda x: x)
     t, s = (lambda: idc(case["tname"])), (lambda: idc(case["sname"]))
-    col = idc
+    qc = case.get("quoted_cols") or {}
+
+    def col(name):
+        # logical column name -> SQL spelling; a column that needs quoting is always written quoted, as declared
+        return qc[name] if name in qc else idc(name)
     on = f" {kw('and')} ".join(f"{t()}.{col('k' + str(j))} = {s()}.{col('k' + str(j))}" for j in range(nk))
     ox = case.get("on_extra") or {}
     if ox.get("t") is not None:
@@ -95,7 +99,7 @@ def _render(case, rnd) -> str:
                 j, r = a.split("=")
                 lhs = col("c" + j)
                 if rnd.random() < 0.3:
-                    lhs = f"{t()}.{lhs}"
+                    lhs = f"{t()}.{lhs}"          # t.c / s1.t.c / db1.s1.t.c, as the target is written
                 sets.append(f"{lhs} = {rhs(r, tt[int(j)])}")
             parts.append(f"{kw('when matched')}{cond} {kw('then update set')} {', '.join(sets)}")
         else:
@@ -204,7 +208,12 @@ def _gen_case(rnd: random.Random, i: int) -> dict:
             fixed.append(c)
         clauses = [c for c in fixed if c[0] != "I"] + [c for c in fixed if c[0] == "I"]
         on_extra = {"t": tcol if "t" in which else None, "s": scol if "s" in which else None}
-    return {"id": i, "on_extra": on_extra, "shape": (nk, ntc, nsc), "ttypes": tt, "stypes": stt, "tloc": tloc, "clauses": clauses, "tgt": tgt, "src": src, "style": style, "tname": tname, "sname": sname,
+    quoted_cols = None
+    if rnd.random() < 0.2:
+        # a target and a source column whose names must be quoted (reserved word / space / lower case)
+        quoted_cols = {f"c{ntc - 1}": rnd.choice(['"ORDER"', '"unit price"', '"Group"']), f"d{nsc - 1}": rnd.choice(['"select"', '"src col"'])}
+    tx = rnd.choice([None, None, None, None, "commit", "rollback"])
+    return {"id": i, "tx": tx, "quoted_cols": quoted_cols, "on_extra": on_extra, "shape": (nk, ntc, nsc), "ttypes": tt, "stypes": stt, "tloc": tloc, "clauses": clauses, "tgt": tgt, "src": src, "style": style, "tname": tname, "sname": sname,
             "source_sql": source_sql, "recase": rnd.random() < 0.5, "omit_true": rnd.random() < 0.7,
             "permute_insert": rnd.random() < 0.3, "unqualified_src": rnd.random() < 0.3, "render_seed": rnd.randrange(1 << 30)}
 
@@ -241,8 +250,9 @@ def _exec_case(conn, case) -> dict:
     bloc = "db1.s2" if tloc == "db1.s1" else "db1.s1"
     cur = conn.cursor()
     sqlt = {"i": "int", "s": "varchar"}
-    tcols = [f"k{j} int" for j in range(nk)] + [f"c{j} {sqlt[tt[j]]}" for j in range(ntc)]
-    scols = [f"k{j} int" for j in range(nk)] + [f"d{j} {sqlt[stt[j]]}" for j in range(nsc)]
+    qc = case.get("quoted_cols") or {}
+    tcols = [f"k{j} int" for j in range(nk)] + [f"{qc.get('c' + str(j), 'c' + str(j))} {sqlt[tt[j]]}" for j in range(ntc)]
+    scols = [f"k{j} int" for j in range(nk)] + [f"{qc.get('d' + str(j), 'd' + str(j))} {sqlt[stt[j]]}" for j in range(nsc)]
     ttypes, stypes = "i" * nk + tt, "i" * nk + stt
     cur.execute(f"create or replace table {tloc}.t ({', '.join(tcols)})")
     cur.execute(f"create or replace table {bloc}.t ({', '.join(tcols)})")
@@ -259,12 +269,24 @@ def _exec_case(conn, case) -> dict:
     sql = _render(case, random.Random(case["render_seed"]))
     out = {"sql": sql}
     dcur = conn.cursor(DictCursor)
+    tx = case.get("tx")
     try:
+        if tx:
+            cur.execute("begin")
         dcur.execute(sql)
         rows = dcur.fetchall()
         out["status"] = [{k: _num(v) for k, v in r.items()} for r in rows]
+        if tx:
+            cur.execute(f"select * from {tloc}.t")
+            out["t_in_tx"] = sorted((tuple(_unlit(ty, v) for v, ty in zip(r, ttypes)) for r in cur.fetchall()), key=_sortkey)
+            cur.execute(tx)
     except Exception as e:
         out["error"] = f"{type(e).__name__}: {str(e)[:200]}"
+        if tx:
+            try:
+                cur.execute("rollback")
+            except Exception:
+                pass
     cur.execute(f"select * from {tloc}.t")
     out["t"] = sorted((tuple(_unlit(ty, v) for v, ty in zip(r, ttypes)) for r in cur.fetchall()), key=_sortkey)
     cur.execute("select * from s")
@@ -379,6 +401,20 @@ def _judge(chk, case, real, m) -> None:
         chk.violation(f"MERGE raised {real['error']} for {desc}", case, broken="C12 correspondence (statement must succeed)")
         return
     real_t = [tuple(r) for r in real["t"]]
+    if case.get("tx"):
+        chk.count("tx:" + case["tx"])
+        orig = sorted((_flat(r, nk) for r in case["tgt"]), key=_sortkey)
+        if case["tx"] == "rollback":
+            # BEGIN; MERGE; ROLLBACK leaves the target as it was; what the MERGE did is judged on the in-transaction view
+            if real_t != orig:
+                chk.violation(f"BEGIN; MERGE; ROLLBACK left the target changed: {real_t} (was {orig}) for {desc}", case,
+                              broken="C12 in an explicit transaction (all or none; ROLLBACK undoes it)")
+                return
+        real_t = [tuple(r) for r in real["t_in_tx"]] if case["tx"] == "rollback" else real_t
+        if [tuple(r) for r in real["t_in_tx"]] != real_t:
+            chk.violation(f"BEGIN; MERGE; COMMIT: the target inside the transaction {real['t_in_tx']} differs from the committed one {real_t}", case,
+                          broken="C12 in an explicit transaction")
+            return
     status = real["status"][0] if len(real["status"]) == 1 else {"?": real["status"]}
     ok_target = real_t == spec_t
     ok_counts = status == sc
